@@ -39,9 +39,9 @@ import (
 //   * a relay listed both in the base set and in a proposer entry with reset_relays: the relay is
 //     required, its values may or may not take the discarded base relay's values into account;
 //   * v1: public key of a relay (carried in the URL, not resolved here).
-// Left out of the input space because undocumented: JSON null relay/proposer entries, regular
-// expressions with alternation (textual and semantic anchoring differ), gas limit "0", validators
-// without a wallet.
+// Left out of the input space because undocumented: JSON null relay/proposer entries, gas limit "0", validators
+// without a wallet.  (Expressions with alternation were left out until round 8; the documentation promises
+// implicit anchors for the expression, so one is in the alphabet now.)
 
 // ---------------------------------------------------------------------------------------------------
 // Population: validators, relays, fallbacks, value encoding.
@@ -64,7 +64,9 @@ var (
 	// proposer alphabet: public keys, account expressions with both, one or no explicit anchor.  The last
 	// four match nothing when fully anchored and something when an anchor is dropped (two of them carry
 	// one explicit anchor, so the other one must still be added).
-	c10Matchers = []string{c10PkA, c10PkB, "W1/.*", "^W1/A1$", "^W2/.*", ".*/A2$", "W1/A", "1/A2", "^W1/A", "1/A2$"}
+	// The last one is an alternation: anchored as a whole it matches nothing; if the anchors only bind its outer
+	// alternatives it matches W1/A2.
+	c10Matchers = []string{c10PkA, c10PkB, "W1/.*", "^W1/A1$", "^W2/.*", ".*/A2$", "W1/A", "1/A2", "^W1/A", "1/A2$", "W2/A9|1/A2"}
 )
 
 type c10Validator struct {
@@ -1144,14 +1146,13 @@ func init() {
 		ID:    "C10",
 		Title: "Proposer settings follow the documented precedence of the execution config",
 		Rule: "version 2, JSON documents through blockrelay.UnmarshalJSON: (A) all 216 layouts of three relays over {absent, new, disabled-and-new, base only, base and overridden, base and disabled} x reset_relays x rows of an orthogonal array whose columns are the presence of fee recipient, gas limit, grace, min value at {top, base relay, proposer, proposer relay}, of the public key at {base relay, proposer relay} and a value variant {plain, presence staggered across relays and entries, explicit zeros at the relay levels, explicit zeros at top/proposer level} (quick: 256 rows, every pair of columns complete; thorough: 4096 rows, every triple complete) x 3 proposer lists (public key; unanchored account expression; three entries of both kinds); " +
-			"(B) every ordered list of up to 3 proposers, repetition allowed, over 2 public keys and 8 account expressions (no, one or both explicit anchors; four that match only if an anchor is dropped, two of them half-anchored) x 36 layouts (every pair of relays in every pair of states) x reset_relays x 4 (thorough 16) presence rows; entry j of a list repeats the shape with relay states rotated by j, reset_relays inverted for odd j and values of its own; (C, D) other textual forms and wei-granular minimum values for the round trip; " +
+			"(B) every ordered list of up to 3 proposers, repetition allowed, over 2 public keys and 9 account expressions (no, one or both explicit anchors; four that match only if an anchor is dropped, two of them half-anchored; one alternation that matches only if the anchors do not bind all of it) x 36 layouts (every pair of relays in every pair of states) x reset_relays x 4 (thorough 16) presence rows; entry j of a list repeats the shape with relay states rotated by j, reset_relays inverted for odd j and values of its own; (C, D) other textual forms and wei-granular minimum values for the round trip; " +
 			"legacy: 8 default_config shapes x 17 x 17 proposer_config entries (fee recipient, gas limit present/absent; builder absent, enabled, enabled with grace, disabled) for two validators; " +
 			"every configuration is resolved for 2 public keys x 3 wallet/account names, compared with an independent reference resolver written from the documentation, and resolved again after marshal/unmarshal; " +
 			"non-trivial = some validator matched a proposer entry or a relay was inherited, overridden or disabled; distinct = distinct sets of (matching position and kind, relay roles) met in one configuration",
 		Assumptions: []string{
 			"fallback fee recipient and gas limit are the two values handed to ExecutionConfigurator.ProposerConfig by blockrelay/standard (its ProposerConfig passes them through unchanged)",
 			"validators have a wallet and an account name",
-			"account expressions without alternation",
 		},
 		Units:         c10Units,
 		MinNontrivial: 200000,
